@@ -12,8 +12,9 @@ Record Inv (s : st) : Prop := {
   i_ran : pc s <> PRun -> ran s = O;
   i_calls : forall c, In c (accepted s) -> In (Some c) (mailbox s) \/ In c (closed_calls s);
   i_ports : ports_open s = false -> mailbox s = [];
-  i_name : exists_cell s = true -> named s = true -> status s < 5 -> name_mine s = true;
+  i_name : exists_cell s = true -> named s = true -> remote s = false -> status s < 5 -> name_mine s = true;
   i_named : name_mine s = true -> named s = true;
+  i_remote : remote s = true -> name_mine s = false;
   i_nocell : exists_cell s = false ->
              name_mine s = false /\ pid_mine s = false /\ groups s = [] /\ mons s = [] /\ my_sup s = None
              /\ mailbox s = [] /\ accepted s = [] /\ waiters s = [] /\ status s = 0;
@@ -45,7 +46,7 @@ Proof. induction l; simpl; auto. Qed.
 
 Ltac t := unfold exists_cell in *; simpl in *;
   try solve [auto | lia | congruence | tauto | intuition (auto; try lia; try congruence)
-            | intros; match goal with H : _ -> _ -> _ < 5 -> name_mine _ = true |- name_mine _ = true => apply H; auto; lia end].
+            | intros; match goal with H : _ -> _ -> _ -> _ < 5 -> name_mine _ = true |- name_mine _ = true => apply H; auto; lia end].
 
 Ltac spec := repeat match goal with
   | H : (?a <= ?b)%nat -> _ |- _ =>
@@ -53,7 +54,7 @@ Ltac spec := repeat match goal with
   end.
 Ltac u Ep := unfold exists_cell in *; simpl in *; rewrite ?Ep in *; simpl in *; spec.
 
-Lemma inv_init : forall nm sp loc scr f holder sst scl, Inv (init nm sp loc scr f holder sst scl).
+Lemma inv_init : forall nm sp loc scr f holder sst scl rem, Inv (init nm sp loc scr f holder sst scl rem).
 Proof. intros. split; t. Qed.
 
 (* effects of pre_start / of the environment on an existing cell keep the invariant *)
@@ -95,6 +96,8 @@ Proof.
     assert (N0 : name_mine s = false /\ pid_mine s = false /\ groups s = [] /\ mons s = [] /\ my_sup s = None
                  /\ mailbox s = [] /\ accepted s = [] /\ waiters s = [] /\ status s = 0)
       by (apply i_nocell0; unfold exists_cell; now rewrite Ep).
+    destruct (remote s) eqn:Er.
+    { split; u Ep; t. }
     destruct (named s) eqn:En.
     + destruct (name_other s); split; u Ep; t.
     + split; u Ep; t.
@@ -131,14 +134,14 @@ Proof.
     + (* C1 *)
       destruct I. assert (Hs : status s <= 4) by (apply i_early0; rewrite Ep; simpl; lia).
       unfold do_c1. assert (E : status s <? 5 = true) by (apply N.ltb_lt; lia). rewrite E.
-      destruct (named s) eqn:En; simpl.
+      destruct (named s) eqn:En; destruct (remote s) eqn:Er; simpl.
+      * pose proof (i_remote0 eq_refl) as Hrm. split; u Ep; t.
       * assert (Hn : name_mine s = true) by (apply i_name0; auto; [unfold exists_cell; now rewrite Ep|lia]).
         rewrite Hn. split; u Ep; t.
-      * split; u Ep; t.
-        intros _. repeat split; auto; try lia.
-        destruct (name_mine s) eqn:Em; auto.
-        (* an unnamed actor never holds a name *)
-        specialize (i_named0 eq_refl). congruence.
+      * assert (Hm : name_mine s = false) by (destruct (name_mine s) eqn:Em; auto; specialize (i_named0 eq_refl); congruence).
+        split; u Ep; t.
+      * assert (Hm : name_mine s = false) by (destruct (name_mine s) eqn:Em; auto; specialize (i_named0 eq_refl); congruence).
+        split; u Ep; t.
     + (* C2 *)
       pose proof (inv_do_c2 s I) as I1. destruct (do_c2_fields s) as (F1 & F2 & F3).
       destruct I1; split; unfold exists_cell in *; simpl in *; rewrite ?F1, ?Ep in *; simpl in *; spec; t.
@@ -225,7 +228,8 @@ Proof.
 Qed.
 
 Lemma eff_fields : forall e s,
-  pc (apply_eff e s) = pc s /\ named (apply_eff e s) = named s /\ name_other (apply_eff e s) = name_other s.
+  pc (apply_eff e s) = pc s /\ named (apply_eff e s) = named s /\ name_other (apply_eff e s) = name_other s
+  /\ remote (apply_eff e s) = remote s.
 Proof.
   intros e s. destruct e; simpl; auto.
   - destruct (_ && _); auto.
@@ -235,14 +239,14 @@ Proof.
 Qed.
 
 Lemma c2_fields : forall s,
-  named (do_c2 s) = named s /\ name_other (do_c2 s) = name_other s.
+  named (do_c2 s) = named s /\ name_other (do_c2 s) = name_other s /\ remote (do_c2 s) = remote s.
 Proof.
   intros s. unfold do_c2. destruct (sgn s); destruct (my_children s) eqn:Ec; simpl; rewrite ?Ec; auto.
 Qed.
 
-Lemma c1_fields : forall s, pc (do_c1 s) = pc s /\ named (do_c1 s) = named s.
+Lemma c1_fields : forall s, pc (do_c1 s) = pc s /\ named (do_c1 s) = named s /\ remote (do_c1 s) = remote s.
 Proof.
-  intros s. unfold do_c1. destruct (status s <? 5); auto. destruct (named s) eqn:En; simpl; auto.
+  intros s. unfold do_c1. destruct (status s <? 5); auto. destruct (named s && negb (remote s)) eqn:En; simpl; auto.
   destruct (name_mine s); simpl; auto.
 Qed.
 
@@ -267,10 +271,7 @@ Qed.
 
 (* every stage of the cleanup is followed by the next: six more steps of the guard reach PDone *)
 Lemma pc_do_c1 : forall s, pc (do_c1 s) = pc s.
-Proof.
-  intros s. unfold do_c1. destruct (status s <? 5); auto. destruct (named s); auto.
-  match goal with |- context [if ?b then _ else _] => destruct b end; reflexivity.
-Qed.
+Proof. intros s. apply c1_fields. Qed.
 
 Lemma pc_clean : forall s, pc (step LClean s) =
   match pc s with C1 => C2 | C2 => C3 | C3 => C4 | C4 => C5 | C5 => C6 | C6 => PDone | p => p end.
@@ -295,7 +296,7 @@ Theorem failure_enters_cleanup : forall s,
   /\ (pc s = P3 -> local_ s = false -> sup s <> None -> sup_link_ok s = false -> pc (step LLinkSup s) = C1)
   /\ (pc s = P1 -> status s = 0 -> local_ s = true -> sup s <> None ->
       sup_link_ok (set_status 1 s) = false -> pc (step LBegin s) = C1)
-  /\ (pc s = P0 -> named s = true -> name_other s <> None -> step LNew s = set_pc PClash s).
+  /\ (pc s = P0 -> remote s = false -> named s = true -> name_other s <> None -> step LNew s = set_pc PClash s).
 Proof.
   intros s. repeat split.
   - intros Ep Hs. unfold step. rewrite Ep. apply N.eqb_neq in Hs. rewrite Hs. reflexivity.
@@ -306,7 +307,7 @@ Proof.
   - intros Ep Hl Hs Hk. unfold step. rewrite Ep, Hl, Hk. destruct (sup s); try congruence; reflexivity.
   - intros Ep Hs Hl Hp Hk. unfold step. rewrite Ep, Hl. apply N.eqb_eq in Hs. rewrite Hs. simpl.
     destruct (sup s); try congruence. rewrite Hk. reflexivity.
-  - intros Ep Hn Ho. unfold step. rewrite Ep, Hn. destruct (name_other s); try congruence; reflexivity.
+  - intros Ep Hr Hn Ho. unfold step. rewrite Ep, Hr, Hn. destruct (name_other s); try congruence; reflexivity.
 Qed.
 
 (* a name clash creates nothing, and no step of the failing spawn ever touches the holder's entry *)
@@ -314,43 +315,45 @@ Theorem holder_untouched : forall l s, Inv s ->
   name_other (step l s) = name_other s \/ (exists b, l = LReuseName b).
 Proof.
   intros l s I. destruct l; try (right; eauto; fail); left; unfold step.
-  - destruct (pc s); auto. destruct (named s); auto. destruct (name_other s) eqn:E; simpl; auto.
+  - destruct (pc s); auto. destruct (remote s); auto. destruct (named s); auto. destruct (name_other s) eqn:E; simpl; auto.
   - destruct (pc s); auto. destruct (negb _); auto. destruct (local_ s); auto.
     destruct (sup s); auto. destruct (sup_link_ok _); auto.
   - destruct (pc s); auto. destruct (script s); [destruct (fin_ s); auto|].
-    destruct (eff_fields e (set_script l (set_fresh false s))) as (_ & _ & ->); auto.
+    destruct (eff_fields e (set_script l (set_fresh false s))) as (_ & _ & -> & _); auto.
   - destruct (pc s); auto. destruct (sup s); auto. destruct (local_ s); auto. destruct (sup_link_ok s); auto.
   - destruct (sgn s); auto. destruct (at_gate s); auto. simpl.
-    destruct (c2_fields (set_sgn SigConsumed s)) as (_ & ->); auto.
+    destruct (c2_fields (set_sgn SigConsumed s)) as (_ & -> & _); auto.
   - destruct (pc s); auto; destruct (at_gate s); auto.
   - destruct (pc s) eqn:Ep; auto; simpl.
     + (* C1: set_status(Stopping) unregisters by name: the entry is a's own *)
-      unfold do_c1. destruct (status s <? 5) eqn:E5; auto. destruct (named s) eqn:En; simpl; auto.
+      unfold do_c1. destruct (status s <? 5) eqn:E5; auto.
+      destruct (named s) eqn:En; destruct (remote s) eqn:Er; simpl; auto.
       assert (Hn : name_mine s = true).
       { apply (i_name _ I); auto; [unfold exists_cell; now rewrite Ep|now apply N.ltb_lt]. }
       rewrite Hn. reflexivity.
-    + destruct (c2_fields s) as (_ & ->); auto.
+    + destruct (c2_fields s) as (_ & -> & _); auto.
     + destruct (mark s); auto.
   - destruct (exists_cell s); auto. destruct (_ && _); auto. destruct c; auto.
   - destruct (exists_cell s); auto.
   - destruct (exists_cell s); auto. destruct (sgn s); auto.
   - destruct (_ && _); auto.
-  - destruct (exists_cell s); auto. destruct (eff_fields (EJoin g) s) as (_ & _ & ->); auto.
-  - destruct (exists_cell s); auto. destruct (eff_fields (EMon g) s) as (_ & _ & ->); auto.
-  - destruct (exists_cell s); auto. destruct (eff_fields (ELinkTo q) s) as (_ & _ & ->); auto.
-  - destruct (exists_cell s); auto. destruct (eff_fields (EAdopt o) s) as (_ & _ & ->); auto.
+  - destruct (exists_cell s); auto. destruct (eff_fields (EJoin g) s) as (_ & _ & -> & _); auto.
+  - destruct (exists_cell s); auto. destruct (eff_fields (EMon g) s) as (_ & _ & -> & _); auto.
+  - destruct (exists_cell s); auto. destruct (eff_fields (ELinkTo q) s) as (_ & _ & -> & _); auto.
+  - destruct (exists_cell s); auto. destruct (eff_fields (EAdopt o) s) as (_ & _ & -> & _); auto.
   - destruct (_ <? _); auto.
   - reflexivity.
   - destruct (my_sup s); auto. destruct (sup s); auto. destruct (_ =? _); auto. destruct (sgn s); auto.
 Qed.
 
-Lemma nocell_step : forall l s, exists_cell s = false -> named s = true -> name_other s <> None ->
-  exists_cell (step l s) = false /\ named (step l s) = true.
+Lemma nocell_step : forall l s, exists_cell s = false -> named s = true -> remote s = false ->
+  name_other s <> None ->
+  exists_cell (step l s) = false /\ named (step l s) = true /\ remote (step l s) = false.
 Proof.
-  intros l s Hx Hn Ho.
+  intros l s Hx Hn Hr Ho.
   assert (G : at_gate s = false) by (unfold at_gate, exists_cell in *; destruct (pc s); auto; discriminate).
   destruct l; unfold step; rewrite ?G; rewrite ?Hx; simpl; auto;
-    unfold exists_cell in *; destruct (pc s) eqn:Ep; try discriminate; simpl; rewrite ?Ep, ?Hn; simpl; auto.
+    unfold exists_cell in *; destruct (pc s) eqn:Ep; try discriminate; simpl; rewrite ?Ep, ?Hr, ?Hn; simpl; auto.
   all: try (destruct (name_other s) eqn:E; [simpl; rewrite ?Ep; auto|congruence]).
   all: try (destruct (sgn s); simpl; rewrite ?Ep; auto; fail).
   all: try (destruct (_ <? _); simpl; rewrite ?Ep; auto; fail).
@@ -361,27 +364,27 @@ Proof.
 Qed.
 
 Lemma clash_inv : forall ls h sp loc scr f sst scl,
-  let s := exec ls (init true sp loc scr f (Some h) sst scl) in
+  let s := exec ls (init true sp loc scr f (Some h) sst scl false) in
   Forall (fun l => forall b, l <> LReuseName b) ls ->
   Inv s /\ name_other s = Some h /\ exists_cell s = false.
 Proof.
   intros ls h sp loc scr f sst scl.
-  set (s0 := init true sp loc scr f (Some h) sst scl).
-  assert (G : forall ls s, Inv s -> named s = true -> name_other s = Some h -> exists_cell s = false ->
+  set (s0 := init true sp loc scr f (Some h) sst scl false).
+  assert (G : forall ls s, Inv s -> named s = true -> remote s = false -> name_other s = Some h -> exists_cell s = false ->
               Forall (fun l => forall b, l <> LReuseName b) ls ->
               Inv (exec ls s) /\ name_other (exec ls s) = Some h /\ exists_cell (exec ls s) = false).
-  { induction ls0 as [|l ls0 IH]; intros s I Hn Ho Hx F; simpl; auto.
+  { induction ls0 as [|l ls0 IH]; intros s I Hn Hr Ho Hx F; simpl; auto.
     inversion F; subst.
     assert (Ho' : name_other s <> None) by congruence.
-    destruct (nocell_step l s Hx Hn Ho') as (X1 & X2).
+    destruct (nocell_step l s Hx Hn Hr Ho') as (X1 & X2 & X3).
     apply IH; auto.
     - now apply inv_step.
     - destruct (holder_untouched l s I) as [E|[b E]]; [congruence|]. exfalso. apply (H1 b E). }
-  intros s F. apply (G ls s0 (inv_init _ _ _ _ _ _ _ _) eq_refl eq_refl eq_refl F).
+  intros s F. apply (G ls s0 (inv_init _ _ _ _ _ _ _ _ _) eq_refl eq_refl eq_refl eq_refl F).
 Qed.
 
 Theorem clash_creates_nothing : forall ls nm_holder sp loc scr f sst scl,
-  let s := exec ls (init true sp loc scr f (Some nm_holder) sst scl) in
+  let s := exec ls (init true sp loc scr f (Some nm_holder) sst scl false) in
   Forall (fun l => forall b, l <> LReuseName b) ls ->
   name_other s = Some nm_holder
   /\ exists_cell s = false
@@ -398,7 +401,7 @@ Qed.
 
 (* the oracle applied to a refused (name taken) spawn accepts every observation of the model *)
 Theorem clash_oracle_sound : forall ls h sp loc scr f sst scl,
-  let s := exec ls (init true sp loc scr f (Some h) sst scl) in
+  let s := exec ls (init true sp loc scr f (Some h) sst scl false) in
   Forall (fun l => forall b, l <> LReuseName b) ls ->
   check_clash (observe s) = true.
 Proof.
@@ -412,11 +415,37 @@ Proof.
   rewrite Ho, A9, A1, A2, A3, A4, A5, A7, Q1, R, Hx. reflexivity.
 Qed.
 
-Theorem clean_failure : forall ls nm sp loc scr f holder sst scl,
-  let s := exec ls (init nm sp loc scr f holder sst scl) in
+Theorem clean_failure : forall ls nm sp loc scr f holder sst scl rem,
+  let s := exec ls (init nm sp loc scr f holder sst scl rem) in
   pc s = PDone -> residue_free s = true /\ check_C08 (observe s) = true.
 Proof.
-  intros ls nm sp loc scr f holder sst scl s Ep.
+  intros ls nm sp loc scr f holder sst scl rem s Ep.
   assert (I : Inv s) by (apply inv_exec, inv_init).
   split; [now apply residue_free_done|now apply observe_done].
+Qed.
+
+(* the holder of the name is never touched along any run of a spawn request (local or remote id) that
+   contains no foreign re-registration; with check_C08 at PDone this is the oracle used when a live actor
+   owns the name the failed spawn carried *)
+Theorem holder_kept : forall ls nm sp loc scr f h sst scl rem,
+  Forall (fun l => forall b, l <> LReuseName b) ls ->
+  name_other (exec ls (init nm sp loc scr f (Some h) sst scl rem)) = Some h.
+Proof.
+  intros ls nm sp loc scr f h sst scl rem.
+  assert (G : forall ls s, Inv s -> name_other s = Some h ->
+              Forall (fun l => forall b, l <> LReuseName b) ls -> name_other (exec ls s) = Some h).
+  { induction ls0 as [|l ls0 IH]; intros s I Ho F; simpl; auto. inversion F; subst.
+    apply IH; auto; [now apply inv_step|].
+    destruct (holder_untouched l s I) as [E|[b E]]; [congruence|]. exfalso. apply (H1 b E). }
+  intros F. apply G; auto. apply inv_init.
+Qed.
+
+Theorem remote_failure_oracle_sound : forall ls nm sp loc scr f h sst scl rem,
+  let s := exec ls (init nm sp loc scr f (Some h) sst scl rem) in
+  Forall (fun l => forall b, l <> LReuseName b) ls ->
+  pc s = PDone -> check_C08_holder (observe s) = true.
+Proof.
+  intros ls nm sp loc scr f h sst scl rem s F Ep. unfold check_C08_holder.
+  destruct (clean_failure ls nm sp loc scr f (Some h) sst scl rem Ep) as [_ E]. fold s in E. rewrite E.
+  unfold observe; simpl. unfold s. rewrite (holder_kept ls nm sp loc scr f h sst scl rem F). reflexivity.
 Qed.
